@@ -361,7 +361,9 @@ func (w *world) step(a Action) (*fail, string) {
 		resp = r
 	}
 	after := w.real(i)
-	if gateUnknown && resp != nil && !resp.Success && strings.HasPrefix(resp.Error, "Access denied") {
+	// (the session layer answers a refusal with the handler's error text: "IP blacklisted: <reason>"; the
+	// handler's own response text is "Access denied")
+	if gateUnknown && resp != nil && !resp.Success && (strings.HasPrefix(resp.Error, "Access denied") || strings.HasPrefix(resp.Error, "IP blacklisted")) {
 		// the short-lived blacklist entry was still in force: the message stopped at the gate, nothing
 		// (in particular no pending challenge) was consumed
 		consumes = false
